@@ -28,3 +28,14 @@ func (b *BBolt) VerifWipe() error {
 		return err
 	})
 }
+
+// VerifNoBatchDelay makes bbolt start a batch transaction immediately instead of
+// waiting 10 ms for further callers (a tuning knob of bbolt, no change of behaviour).
+func (b *BBolt) VerifNoBatchDelay() { b.db.MaxBatchDelay = 0 }
+
+// VerifRawPut stores raw bytes under a key (used to plant an unreadable record).
+func (b *BBolt) VerifRawPut(key string, value []byte) error {
+	return b.db.Update(func(tx *bbolt.Tx) error {
+		return tx.Bucket(bucketName).Put([]byte(key), value)
+	})
+}
